@@ -94,3 +94,18 @@ func fingerprint(outs []*harness.Output) string {
 }
 
 var _ = time.Now
+
+// Conformance runs the errgroup/context stub conformance scripts inside a scratch module.
+func Conformance(n int) string {
+	e := prepare()
+	drv.CopyTree(drv.Root+"/rt/conform", e.mod+"/cmd/conform", nil)
+	bin := e.scratch + "/conform"
+	if r := drv.Run(e.mod, 10*time.Minute, nil, "go", "build", "-tags", "verifscratch", "-o", bin, "./cmd/conform"); r.Err != nil {
+		drv.Broken("building the conformance program failed:\n%s", r.Out)
+	}
+	r := drv.Run(e.scratch, 10*time.Minute, nil, bin, fmt.Sprint(n))
+	if r.Err != nil {
+		drv.Broken("errgroup/context stub does not conform to the real packages:\n%s", r.Out)
+	}
+	return string(r.Out)
+}
